@@ -456,8 +456,10 @@ func (c *evalCtx) index(x, i tval) (tval, error) {
 		return tval{t: StrAt(BStr(x.t), i.t), ty: types.Typ[types.Uint8]}, nil
 	}
 	if strings.HasPrefix(string(x.t.Sort), "(Array ") {
-		// ghost map: (Array Int Int) etc.
-		return tval{t: mk(SInt, "select", x.t, i.t), ty: tInt}, nil
+		// ghost array: the element sort is the last component of the sort
+		ss := strings.TrimSuffix(string(x.t.Sort), ")")
+		es := Sort(ss[strings.LastIndex(ss, " ")+1:])
+		return tval{t: mk(es, "select", x.t, i.t), ty: sortType(es)}, nil
 	}
 	return tval{}, fmt.Errorf("cannot index %s", x.ty)
 }
